@@ -49,6 +49,7 @@ pub fn init_function_prototype(interp: &mut Interpreter) {
     interp.register_method(&proto, "call", function_call, 1);
     interp.register_method(&proto, "apply", function_apply, 2);
     interp.register_method(&proto, "bind", function_bind, 1);
+    interp.register_method(&proto, "toString", function_to_string, 0);
 
     // Add Symbol.hasInstance method
     let well_known = interp.well_known_symbols;
@@ -110,6 +111,34 @@ fn function_has_instance(
     }
 
     Ok(Guarded::unguarded(JsValue::Boolean(false)))
+}
+
+/// Function.prototype.toString: the source text is not kept, so every function prints in the
+/// form the specification allows for that case
+pub fn function_to_string(
+    interp: &mut Interpreter,
+    this: JsValue,
+    _args: &[JsValue],
+) -> Result<Guarded, JsError> {
+    let JsValue::Object(func) = &this else {
+        return Err(JsError::type_error(
+            "Function.prototype.toString requires that 'this' be a Function",
+        ));
+    };
+    if !func.borrow().is_callable() {
+        return Err(JsError::type_error(
+            "Function.prototype.toString requires that 'this' be a Function",
+        ));
+    }
+    let name_key = PropertyKey::String(interp.intern("name"));
+    let name = match func.borrow().get_property(&name_key) {
+        Some(JsValue::String(name)) => name.to_string(),
+        _ => String::new(),
+    };
+    Ok(Guarded::unguarded(JsValue::String(JsString::from(format!(
+        "function {}() {{ [native code] }}",
+        name
+    )))))
 }
 
 /// Create the global Function constructor
